@@ -162,7 +162,10 @@ Record cfg := mkCfg {
   (* ANTI-PATTERN switches, all false for the code as it is and for the repaired protocol: *)
   unlink_on_release : bool;     (* __exit__ also removes cache_lock.lock *)
   cleanup_outside_lock : bool;  (* cache_local_versions deletes every *.tmp BEFORE taking the lock *)
-  memo_stamp : bool             (* the last-update time is memoised per OS process *)
+  memo_stamp : bool;            (* the last-update time is memoised per OS process *)
+  per_process_locks : bool      (* the advisory lock belongs to the OS PROCESS (POSIX record locks, lockf)
+                                   instead of the open file (flock): a second holder in the same process
+                                   gets in, and its close drops the lock of the whole process *)
 }.
 
 (* time_since_update < time_threshold, last time 0 when there is no stamp
@@ -313,12 +316,20 @@ Definition opened (s : shared) (r : proc) : shared :=
   | None => match lockfile s with Some _ => s | None => create_lockfile s end
   end.
 
+(* who owns an advisory lock taken by model process p (one contender: a thread, or a nested
+   CacheLock object, of some OS process): the contender's own open file -- or, with the
+   ANTI-PATTERN switch, its OS process *)
+Definition hid (c : cfg) (r : proc) (p : nat) : nat :=
+  if per_process_locks c then owner_of (kind_of r) p else p.
+
 Definition acquire_step (c : cfg) (p : nat) (s : shared) (r : proc) (ok giveup : pc) : shared * proc :=
   let i := lock_ino s r in
   let s1 := opened s r in
   match lget (locks s) i with
-  | None => (set_locks s1 (lset (locks s) i p), set_fd (goto r ok) (Some i))
-  | Some _ => if Nat.ltb (S (tries r)) (max_tries c)
+  | None => (set_locks s1 (lset (locks s) i (hid c r p)), set_fd (goto r ok) (Some i))
+  | Some h => if per_process_locks c && Nat.eqb h (hid c r p)
+              then (s1, set_fd (goto r ok) (Some i))      (* "the process already has it" *)
+              else if Nat.ltb (S (tries r)) (max_tries c)
               then (s1, set_fd (inc_tries r) (Some i))
               else (s1, set_fd (set_err (goto r giveup)) None)
   end.
@@ -454,9 +465,9 @@ Definition pstep (c : cfg) (p : nat) (s : shared) (r : proc) : shared * proc :=
   | FReplace f =>
       match fget m (Tmp p f) with
       | Some x => (set_files s (fset (fdel m (Tmp p f)) (Ver f) x), goto r (FExists (S f)))
-      | None => (leave c p (fd r) s, set_fd (goto r (Done (OFail FFileNotFound))) None)
+      | None => (leave c (hid c r p) (fd r) s, set_fd (goto r (Done (OFail FFileNotFound))) None)
       end
-  | FRelease => (leave c p (fd r) s, set_fd (set_pop (goto r FCheck)) None)
+  | FRelease => (leave c (hid c r p) (fd r) s, set_fd (set_pop (goto r FCheck)) None)
   | FCheck => (s, goto r (lookup_fixed c m v))
   | FRead =>
       match fget m (Ver v) with
@@ -472,7 +483,7 @@ Definition pstep (c : cfg) (p : nat) (s : shared) (r : proc) : shared * proc :=
       else (remember c o s, set_ts (goto r XAcquire) (clock s))
   | XAcquire => acquire_step c p s r XBody (Done OSkipped)
   | XBody => (add_net s, inc_req (goto r XExit))
-  | XExit => (leave c p (fd r) (memo_written c (owner_of (kind_of r) p) (ts r) (set_stamp s (StampAt (ts r)))),
+  | XExit => (leave c (hid c r p) (fd r) (memo_written c (owner_of (kind_of r) p) (ts r) (set_stamp s (StampAt (ts r)))),
               set_fd (goto r (Done OSkipped)) None)
   | Done _ => (s, r)
   | Dead => (s, r)
@@ -503,7 +514,7 @@ Definition step (c : cfg) (w : world) (e : event) : world :=
   | Crash p =>
       match nth_error (procs w) p with
       | Some r => if is_done (pc_of r) then w
-                  else mkW (release p (fd r) (sh w)) (upd (procs w) p (set_fd (goto r Dead) None))
+                  else mkW (release (hid c r p) (fd r) (sh w)) (upd (procs w) p (set_fd (goto r Dead) None))
       | None => w
       end
   | Tick d => mkW (set_clock (sh w) (clock (sh w) + d)) (procs w)
